@@ -1,36 +1,440 @@
 /-
 Props/C08 — property theorems for C08: every command packet decodes to the caller's arguments under the
-firmware layout.  The model (Model/C08) packs with the format strings, constants and header expression
-regenerated from /repo (Gen/C08); the firmware decoder (Spec/C08) is written independently from the firmware's
-packed C structs; `expected?` (Proofs/C08Spec) says which firmware command the ARGUMENTS of a call denote.
+firmware layout.
+
+* Model/C08 `emit ver call` : the packets one API call hands to the link (or the exception it raises); it packs with
+  the format strings, constants and header expression regenerated from /repo (Gen/C08).
+* Spec/C08 `Fw.decode ver header data` : the firmware's decoder, written independently from its packed C structs.
+* Proofs/C08Spec `expected? ver call` : the firmware command that the ARGUMENTS of the call denote (none = some
+  argument is not representable), `docPortChan`, `wireSize`, `Call.Pre` (side conditions, explained there).
 -/
-import CfVerif.Proofs.C08Cmdr
+import CfVerif.Proofs.C08HL
+import CfVerif.Proofs.C08Full
+import CfVerif.Proofs.C08Wire
 namespace CfVerif.C08
 open CfVerif
 
-/-! ## Gen obligations: what the hand-written model assumes about the current source -/
+/-! ## Gen obligations: what the hand-written model assumes about the current source
+(argument order of every struct.pack, port / channel assignments, version and range comparisons) -/
 
-theorem gen_setpoint : Gen.C08.setpoint_args0 = ["roll", "-pitch", "yawrate", "thrust"] ∧
-    Gen.C08.setpoint_port = ["CRTPPort.COMMANDER"] ∧ Gen.C08.setpoint_chan = [] ∧
-    Gen.C08.setpoint_ifs = ["thrust > 65535 or thrust < 0", "self._x_mode"] ∧ Gen.C08.setpoint_raises = ["ValueError"] ∧
-    Gen.C08.setpoint_xmodeAssign = ["(0.707 * (roll - pitch), 0.707 * (roll + pitch))"] := by decide
-theorem gen_hover : Gen.C08.hover_args0 = ["TYPE_HOVER_LEGACY", "vx", "vy", "-yawrate", "zdistance"] ∧
+theorem gen_setpoint :
+    Gen.C08.setpoint_nPacks = 1 ∧
+    Gen.C08.setpoint_args0 = ["roll", "-pitch", "yawrate", "thrust"] ∧
+    Gen.C08.setpoint_port = ["CRTPPort.COMMANDER"] ∧
+    Gen.C08.setpoint_chan = [] ∧
+    Gen.C08.setpoint_cmps = ["thrust > 65535", "thrust < 0"] ∧
+    Gen.C08.setpoint_raises = ["ValueError"] := by decide
+theorem gen_notifyStop :
+    Gen.C08.notifyStop_nPacks = 1 ∧
+    Gen.C08.notifyStop_args0 = ["TYPE_META_COMMAND_NOTIFY_SETPOINT_STOP", "remain_valid_milliseconds"] ∧
+    Gen.C08.notifyStop_port = ["CRTPPort.COMMANDER_GENERIC"] ∧
+    Gen.C08.notifyStop_chan = ["META_COMMAND_CHANNEL"] := by decide
+theorem gen_stopSetpoint :
+    Gen.C08.stopSetpoint_nPacks = 1 ∧
+    Gen.C08.stopSetpoint_args0 = ["TYPE_STOP"] ∧
+    Gen.C08.stopSetpoint_port = ["CRTPPort.COMMANDER_GENERIC"] ∧
+    Gen.C08.stopSetpoint_chan = [] := by decide
+theorem gen_velocityWorld :
+    Gen.C08.velocityWorld_nPacks = 2 ∧
+    Gen.C08.velocityWorld_args0 = ["TYPE_VELOCITY_WORLD_LEGACY", "vx", "vy", "vz", "-yawrate"] ∧
+    Gen.C08.velocityWorld_args1 = ["TYPE_VELOCITY_WORLD", "vx", "vy", "vz", "yawrate"] ∧
+    Gen.C08.velocityWorld_port = ["CRTPPort.COMMANDER_GENERIC"] ∧
+    Gen.C08.velocityWorld_chan = ["SET_SETPOINT_CHANNEL"] ∧
+    Gen.C08.velocityWorld_cmps = ["self._cf.platform.get_protocol_version() <= 8"] := by decide
+theorem gen_zdistance :
+    Gen.C08.zdistance_nPacks = 2 ∧
+    Gen.C08.zdistance_args0 = ["TYPE_ZDISTANCE_LEGACY", "roll", "pitch", "-yawrate", "zdistance"] ∧
+    Gen.C08.zdistance_args1 = ["TYPE_ZDISTANCE", "roll", "pitch", "yawrate", "zdistance"] ∧
+    Gen.C08.zdistance_port = ["CRTPPort.COMMANDER_GENERIC"] ∧
+    Gen.C08.zdistance_chan = ["SET_SETPOINT_CHANNEL"] ∧
+    Gen.C08.zdistance_cmps = ["self._cf.platform.get_protocol_version() <= 8"] := by decide
+theorem gen_hover :
+    Gen.C08.hover_nPacks = 2 ∧
+    Gen.C08.hover_args0 = ["TYPE_HOVER_LEGACY", "vx", "vy", "-yawrate", "zdistance"] ∧
     Gen.C08.hover_args1 = ["TYPE_HOVER", "vx", "vy", "yawrate", "zdistance"] ∧
-    Gen.C08.hover_port = ["CRTPPort.COMMANDER_GENERIC"] ∧ Gen.C08.hover_chan = ["SET_SETPOINT_CHANNEL"] ∧
+    Gen.C08.hover_port = ["CRTPPort.COMMANDER_GENERIC"] ∧
+    Gen.C08.hover_chan = ["SET_SETPOINT_CHANNEL"] ∧
     Gen.C08.hover_cmps = ["self._cf.platform.get_protocol_version() <= 8"] := by decide
+theorem gen_fullState :
+    Gen.C08.fullState_nPacks = 1 ∧
+    Gen.C08.fullState_args0 = ["TYPE_FULL_STATE", "x", "y", "z", "vx", "vy", "vz", "ax", "ay", "az", "orient_comp", "rr", "pr", "yr"] ∧
+    Gen.C08.fullState_port = ["CRTPPort.COMMANDER_GENERIC"] ∧
+    Gen.C08.fullState_chan = [] := by decide
+theorem gen_position :
+    Gen.C08.position_nPacks = 1 ∧
+    Gen.C08.position_args0 = ["TYPE_POSITION", "x", "y", "z", "yaw"] ∧
+    Gen.C08.position_port = ["CRTPPort.COMMANDER_GENERIC"] ∧
+    Gen.C08.position_chan = ["SET_SETPOINT_CHANNEL"] := by decide
+theorem gen_hlGroupMask :
+    Gen.C08.hlGroupMask_nPacks = 1 ∧
+    Gen.C08.hlGroupMask_args0 = ["self.COMMAND_SET_GROUP_MASK", "group_mask"] ∧
+    Gen.C08.hlGroupMask_port = [] ∧
+    Gen.C08.hlGroupMask_chan = [] := by decide
+theorem gen_hlTakeoff :
+    Gen.C08.hlTakeoff_nPacks = 1 ∧
+    Gen.C08.hlTakeoff_args0 = ["self.COMMAND_TAKEOFF_2", "group_mask", "absolute_height_m", "target_yaw", "useCurrentYaw", "duration_s"] ∧
+    Gen.C08.hlTakeoff_port = [] ∧
+    Gen.C08.hlTakeoff_chan = [] ∧
+    Gen.C08.hlTakeoff_cmps = ["yaw is None"] := by decide
+theorem gen_hlLand :
+    Gen.C08.hlLand_nPacks = 1 ∧
+    Gen.C08.hlLand_args0 = ["self.COMMAND_LAND_2", "group_mask", "absolute_height_m", "target_yaw", "useCurrentYaw", "duration_s"] ∧
+    Gen.C08.hlLand_port = [] ∧
+    Gen.C08.hlLand_chan = [] ∧
+    Gen.C08.hlLand_cmps = ["yaw is None"] := by decide
+theorem gen_hlStop :
+    Gen.C08.hlStop_nPacks = 1 ∧
+    Gen.C08.hlStop_args0 = ["self.COMMAND_STOP", "group_mask"] ∧
+    Gen.C08.hlStop_port = [] ∧
+    Gen.C08.hlStop_chan = [] := by decide
+theorem gen_hlGoTo :
+    Gen.C08.hlGoTo_nPacks = 2 ∧
+    Gen.C08.hlGoTo_args0 = ["self.COMMAND_GO_TO", "group_mask", "relative", "x", "y", "z", "yaw", "duration_s"] ∧
+    Gen.C08.hlGoTo_args1 = ["self.COMMAND_GO_TO_2", "group_mask", "relative", "linear", "x", "y", "z", "yaw", "duration_s"] ∧
+    Gen.C08.hlGoTo_port = [] ∧
+    Gen.C08.hlGoTo_chan = [] ∧
+    Gen.C08.hlGoTo_cmps = ["self._cf.platform.get_protocol_version() < 8"] := by decide
+theorem gen_hlSpiral :
+    Gen.C08.hlSpiral_nPacks = 1 ∧
+    Gen.C08.hlSpiral_args0 = ["self.COMMAND_SPIRAL", "group_mask", "sideways", "clockwise", "angle", "r0", "rF", "ascent", "duration_s"] ∧
+    Gen.C08.hlSpiral_port = [] ∧
+    Gen.C08.hlSpiral_chan = [] ∧
+    Gen.C08.hlSpiral_cmps = ["self._cf.platform.get_protocol_version() < 8", "angle > 2 * math.pi", "angle < -2 * math.pi", "r0 < 0", "rF < 0"] := by decide
+theorem gen_hlStartTraj :
+    Gen.C08.hlStartTraj_nPacks = 1 ∧
+    Gen.C08.hlStartTraj_args0 = ["self.COMMAND_START_TRAJECTORY", "group_mask", "relative", "reversed", "trajectory_id", "time_scale"] ∧
+    Gen.C08.hlStartTraj_port = [] ∧
+    Gen.C08.hlStartTraj_chan = [] := by decide
+theorem gen_hlDefineTraj :
+    Gen.C08.hlDefineTraj_nPacks = 1 ∧
+    Gen.C08.hlDefineTraj_args0 = ["self.COMMAND_DEFINE_TRAJECTORY", "trajectory_id", "self.TRAJECTORY_LOCATION_MEM", "type", "offset", "n_pieces"] ∧
+    Gen.C08.hlDefineTraj_port = [] ∧
+    Gen.C08.hlDefineTraj_chan = [] := by decide
+theorem gen_hlSend :
+    Gen.C08.hlSend_nPacks = 0 ∧
+    Gen.C08.hlSend_port = ["CRTPPort.SETPOINT_HL"] ∧
+    Gen.C08.hlSend_chan = [] ∧
+    Gen.C08.hlSend_data = ["data"] ∧
+    Gen.C08.hlSend_sends = ["self._cf.send_packet(pk)"] := by decide
+theorem gen_extpos :
+    Gen.C08.extpos_nPacks = 1 ∧
+    Gen.C08.extpos_args0 = ["pos[0]", "pos[1]", "pos[2]"] ∧
+    Gen.C08.extpos_port = ["CRTPPort.LOCALIZATION"] ∧
+    Gen.C08.extpos_chan = ["self.POSITION_CH"] := by decide
+theorem gen_extpose :
+    Gen.C08.extpose_nPacks = 1 ∧
+    Gen.C08.extpose_args0 = ["self.EXT_POSE", "pos[0]", "pos[1]", "pos[2]", "quat[0]", "quat[1]", "quat[2]", "quat[3]"] ∧
+    Gen.C08.extpose_port = ["CRTPPort.LOCALIZATION"] ∧
+    Gen.C08.extpose_chan = ["self.GENERIC_CH"] := by decide
+theorem gen_shortLpp :
+    Gen.C08.shortLpp_nPacks = 1 ∧
+    Gen.C08.shortLpp_args0 = ["self.LPS_SHORT_LPP_PACKET", "dest_id"] ∧
+    Gen.C08.shortLpp_port = ["CRTPPort.LOCALIZATION"] ∧
+    Gen.C08.shortLpp_chan = ["self.GENERIC_CH"] ∧
+    Gen.C08.shortLpp_data = ["struct.pack('<BB', self.LPS_SHORT_LPP_PACKET, dest_id) + data"] ∧
+    Gen.C08.shortLpp_sends = ["self._cf.send_packet(pk)"] := by decide
+theorem gen_emergencyStop :
+    Gen.C08.emergencyStop_nPacks = 1 ∧
+    Gen.C08.emergencyStop_args0 = ["self.EMERGENCY_STOP"] ∧
+    Gen.C08.emergencyStop_port = ["CRTPPort.LOCALIZATION"] ∧
+    Gen.C08.emergencyStop_chan = ["self.GENERIC_CH"] := by decide
+theorem gen_emergencyWatchdog :
+    Gen.C08.emergencyWatchdog_nPacks = 1 ∧
+    Gen.C08.emergencyWatchdog_args0 = ["self.EMERGENCY_STOP_WATCHDOG"] ∧
+    Gen.C08.emergencyWatchdog_port = ["CRTPPort.LOCALIZATION"] ∧
+    Gen.C08.emergencyWatchdog_chan = ["self.GENERIC_CH"] := by decide
+theorem gen_lhPersist :
+    Gen.C08.lhPersist_nPacks = 1 ∧
+    Gen.C08.lhPersist_args0 = ["self.LH_PERSIST_DATA", "mask_geo", "mask_calib"] ∧
+    Gen.C08.lhPersist_port = ["CRTPPort.LOCALIZATION"] ∧
+    Gen.C08.lhPersist_chan = ["self.GENERIC_CH"] ∧
+    Gen.C08.lhPersist_cmps = ["len(geo_list) > 0", "geo_list[0] < 0", "geo_list[-1] > max_bs_nr", "len(calib_list) > 0", "calib_list[0] < 0", "calib_list[-1] > max_bs_nr"] ∧
+    Gen.C08.lhPersist_raises = ["Exception", "Exception"] := by decide
+theorem gen_extposWrap :
+    Gen.C08.extposWrap_nPacks = 0 ∧
+    Gen.C08.extposWrap_port = [] ∧
+    Gen.C08.extposWrap_chan = [] ∧
+    Gen.C08.extposWrap_data = [] ∧
+    Gen.C08.extposWrap_sends = ["self._cf.loc.send_extpos([x, y, z])"] := by decide
+theorem gen_extposeWrap :
+    Gen.C08.extposeWrap_nPacks = 0 ∧
+    Gen.C08.extposeWrap_port = [] ∧
+    Gen.C08.extposeWrap_chan = [] ∧
+    Gen.C08.extposeWrap_data = [] ∧
+    Gen.C08.extposeWrap_sends = ["self._cf.loc.send_extpose([x, y, z], [qx, qy, qz, qw])"] := by decide
+theorem gen_contWave :
+    Gen.C08.contWave_nPacks = 0 ∧
+    Gen.C08.contWave_port = [] ∧
+    Gen.C08.contWave_chan = [] ∧
+    Gen.C08.contWave_setHeader = ["pk.set_header(CRTPPort.PLATFORM, PLATFORM_COMMAND)"] ∧
+    Gen.C08.contWave_data = ["(PLATFORM_SET_CONT_WAVE, enabled)"] ∧
+    Gen.C08.contWave_sends = ["self._cf.send_packet(pk)"] := by decide
+theorem gen_arming :
+    Gen.C08.arming_nPacks = 0 ∧
+    Gen.C08.arming_port = [] ∧
+    Gen.C08.arming_chan = [] ∧
+    Gen.C08.arming_setHeader = ["pk.set_header(CRTPPort.PLATFORM, PLATFORM_COMMAND)"] ∧
+    Gen.C08.arming_data = ["(PLATFORM_REQUEST_ARMING, do_arm)"] ∧
+    Gen.C08.arming_sends = ["self._cf.send_packet(pk)"] := by decide
+theorem gen_crashRecovery :
+    Gen.C08.crashRecovery_nPacks = 0 ∧
+    Gen.C08.crashRecovery_port = [] ∧
+    Gen.C08.crashRecovery_chan = [] ∧
+    Gen.C08.crashRecovery_setHeader = ["pk.set_header(CRTPPort.PLATFORM, PLATFORM_COMMAND)"] ∧
+    Gen.C08.crashRecovery_data = ["(PLATFORM_REQUEST_CRASH_RECOVERY,)"] ∧
+    Gen.C08.crashRecovery_sends = ["self._cf.send_packet(pk)"] := by decide
+theorem gen_lopoPosition :
+    Gen.C08.lopoPosition_nPacks = 1 ∧
+    Gen.C08.lopoPosition_args0 = ["LoPoAnchor.LPP_TYPE_POSITION", "x", "y", "z"] ∧
+    Gen.C08.lopoPosition_port = [] ∧
+    Gen.C08.lopoPosition_chan = [] ∧
+    Gen.C08.lopoPosition_sends = ["self.crazyflie.loc.send_short_lpp_packet(anchor_id, data)"] := by decide
+theorem gen_lopoReboot :
+    Gen.C08.lopoReboot_nPacks = 1 ∧
+    Gen.C08.lopoReboot_args0 = ["LoPoAnchor.LPP_TYPE_REBOOT", "mode"] ∧
+    Gen.C08.lopoReboot_port = [] ∧
+    Gen.C08.lopoReboot_chan = [] ∧
+    Gen.C08.lopoReboot_sends = ["self.crazyflie.loc.send_short_lpp_packet(anchor_id, data)"] := by decide
+theorem gen_lopoMode :
+    Gen.C08.lopoMode_nPacks = 1 ∧
+    Gen.C08.lopoMode_args0 = ["LoPoAnchor.LPP_TYPE_MODE", "mode"] ∧
+    Gen.C08.lopoMode_port = [] ∧
+    Gen.C08.lopoMode_chan = [] ∧
+    Gen.C08.lopoMode_sends = ["self.crazyflie.loc.send_short_lpp_packet(anchor_id, data)"] := by decide
+
+
+/-- CRTPPacket: constructor defaults, property setters, header recomputation, size check in Crazyflie.send_packet -/
+theorem gen_packet :
+    Gen.C08.pktInitParams = ["self", "header=0", "data=None"] ∧
+    Gen.C08.set_port_body = ["self._port = port", "self._update_header()"] ∧
+    Gen.C08.set_channel_body = ["self._channel = channel", "self._update_header()"] ∧
+    Gen.C08.set_header_body = ["self._port = port", "self.channel = channel", "self._update_header()"] ∧
+    Gen.C08.pktProperties = ["data=property(_get_data, _set_data)", "port=property(_get_port, _set_port)",
+      "channel=property(_get_channel, _set_channel)"] ∧
+    Gen.C08.sendPacketFirstStmt = "if not pk.is_data_size_valid(): ;     raise Exception('Data part of packet is too large')" ∧
+    Gen.C08.pkt_is_data_size_valid = ["self.available_data_size() >= 0"] ∧
+    Gen.C08.pkt_available_data_size = ["self.MAX_DATA_SIZE - self.get_data_size()"] ∧
+    Gen.C08.pkt_get_data_size = ["len(self._data)"] ∧
+    Gen.C08.maxDataSize = 30 ∧ defaultChan = 0 ∧ defaultPort = 0 := by decide
+
+theorem gen_setpoint_detail :
+    Gen.C08.setpoint_ifs = ["thrust > 65535 or thrust < 0", "self._x_mode"] ∧ Gen.C08.thrustMax = 65535 ∧
+    Gen.C08.setpoint_xmodeAssign = ["(0.707 * (roll - pitch), 0.707 * (roll + pitch))"] := by decide
+
+theorem gen_fullState_detail :
+    Gen.C08.fullState_helper = "vector_to_mm_16bit(vec): return (int(vec[0] * 1000), int(vec[1] * 1000), int(vec[2] * 1000))" ∧
+    Gen.C08.fullState_assigns = ["(ax, ay, az) = vector_to_mm_16bit(acc)",
+      "(rr, pr, yr) = vector_to_mm_16bit([rollrate, pitchrate, yawrate])", "(vx, vy, vz) = vector_to_mm_16bit(vel)",
+      "(x, y, z) = vector_to_mm_16bit(pos)", "orient_comp = compress_quaternion(orientation)"] := by decide
+
+theorem gen_compress_quaternion :
+    Gen.C08.cq_quat_n = ["np.array(quat) / np.linalg.norm(quat)"] ∧ Gen.C08.cq_M_SQRT1_2 = ["1.0 / np.sqrt(2)"] ∧
+    Gen.C08.cq_i_largest = ["0", "i"] ∧ Gen.C08.cq_fors = ["i in range(1, 4)", "i in range(4)"] ∧
+    Gen.C08.cq_ifs = ["abs(quat_n[i]) > abs(quat_n[i_largest])", "i != i_largest"] ∧
+    Gen.C08.cq_negate = ["quat_n[i_largest] < 0"] ∧ Gen.C08.cq_negbit = ["int((quat_n[i] < 0) ^ negate)"] ∧
+    Gen.C08.cq_mag = ["int(((1 << 9) - 1) * (abs(quat_n[i]) / M_SQRT1_2) + 0.5)"] ∧
+    Gen.C08.cq_comp = ["i_largest", "comp << 10 | negbit << 9 | mag"] ∧ Gen.C08.cq_returns = ["comp"] := by decide
+
+theorem gen_takeoff_land_detail :
+    Gen.C08.hlTakeoff_ifs = ["yaw is None"] ∧ Gen.C08.hlLand_ifs = ["yaw is None"] ∧
+    Gen.C08.hlTakeoff_assigns = ["target_yaw = yaw", "target_yaw = 0.0", "useCurrentYaw = False", "useCurrentYaw = True"] ∧
+    Gen.C08.hlLand_assigns = ["target_yaw = yaw", "target_yaw = 0.0", "useCurrentYaw = False", "useCurrentYaw = True"] := by decide
+
+/-- spiral: the clamp assignments; the constants themselves are pinned by `gen_spiral_consts` (Proofs/C08HL) -/
+theorem gen_spiral_detail :
+    Gen.C08.hlSpiral_assigns = ["angle = 2 * math.pi", "angle = -2 * math.pi", "r0 = 0", "rF = 0"] := by decide
+
+/-- lighthouse persist: sort, validate first/last against 0..15, OR the bits (the REPAIRED code, fixes/D17-c08.patch) -/
+theorem gen_lhPersist_detail :
+    Gen.C08.lhMaxBs = 15 ∧ Gen.C08.lhPersist_calls = ["geo_list.sort()", "calib_list.sort()"] ∧
+    Gen.C08.lhPersist_ifs = ["len(geo_list) > 0", "geo_list[0] < 0 or geo_list[-1] > max_bs_nr", "len(calib_list) > 0",
+      "calib_list[0] < 0 or calib_list[-1] > max_bs_nr"] ∧
+    Gen.C08.lhPersist_fors = ["bs in geo_list", "bs in calib_list"] ∧
+    Gen.C08.lhPersist_maskGeo = ["0", "mask_geo |= 1 << bs"] ∧ Gen.C08.lhPersist_maskCalib = ["0", "mask_calib |= 1 << bs"] := by
+  decide
+
+theorem gen_lopoPosition_detail :
+    Gen.C08.lopoPosition_assigns = ["x = position[0]", "y = position[1]", "z = position[2]"] := by decide
 
 /-! ## The property -/
 
-/-- the header byte encodes port and channel losslessly, for all 16 x 4 combinations -/
+/-- **Header byte.**  The header encodes port and channel losslessly, for all 16 x 4 combinations (and sets the two
+reserved bits): distinct (port, channel) pairs give distinct bytes and both are recovered from the byte. -/
 theorem header_lossless : ∀ port < 16, ∀ chan < 4,
-    Gen.C08.hdrExpr port chan < 256 ∧ Gen.C08.hdrExpr port chan / 16 % 16 = port ∧ Gen.C08.hdrExpr port chan % 4 = chan := by
+    Gen.C08.hdrExpr port chan < 256 ∧ Gen.C08.hdrExpr port chan / 16 % 16 = port ∧ Gen.C08.hdrExpr port chan % 4 = chan ∧
+    Gen.C08.hdrExpr port chan = 16 * port + 12 + chan := by
   decide
 
-theorem hover_decodes (ver : Int) (vx vy yawrate z : Num) : Sound1 ver (.hover vx vy yawrate z) :=
-  sound_hover ver vx vy yawrate z
+/-- **Every command decodes to the caller's arguments.**  Whatever the protocol version and the arguments: if the
+call hands anything to the link then it is exactly one packet (nothing at all only for `spiral` before version 8),
+the payload is at most 30 bytes, every argument was representable in its field (`expected?` is defined), and the
+firmware decodes the packet, under its layout for that protocol version, to exactly the command the arguments
+denote: floats bit-for-bit at binary32, fixed-point fields as `int(x*1000)`, sign conventions as documented. -/
+theorem emit_decodes (ver : Int) (c : Call) (ps : List Packet) (h : emit ver c = .ok ps) (hpre : c.Pre ver) :
+    (∃ p, ps = [p] ∧ p.data.length ≤ 30 ∧ (expected? ver c).isSome ∧ Fw.decode ver p.header p.data = expected? ver c) ∨
+    (ps = [] ∧ ver < 8 ∧ ∃ a b c' d e f g h', c = .hlSpiral a b c' d e f g h') := by
+  cases c with
+  | setpoint xm roll pitch mr mp yaw thrust => exact .inl (sound_setpoint ver xm roll pitch mr mp yaw thrust ps h hpre)
+  | notifyStop ms => exact .inl (sound_notifyStop ver ms ps h hpre)
+  | stopSetpoint => exact .inl (sound_stopSetpoint ver ps h hpre)
+  | velocityWorld a b c d => exact .inl (sound_velocityWorld ver a b c d ps h hpre)
+  | zdistance a b c d => exact .inl (sound_zdistance ver a b c d ps h hpre)
+  | hover a b c d => exact .inl (sound_hover ver a b c d ps h hpre)
+  | fullState pos vel acc quat rates => exact .inl (sound_fullState ver pos vel acc quat rates ps h hpre)
+  | position a b c d => exact .inl (sound_position ver a b c d ps h hpre)
+  | hlGroupMask gm => exact .inl (sound_hlGroupMask ver gm ps h hpre)
+  | hlTakeoff a b c d => exact .inl (sound_hlTakeoff ver a b c d ps h hpre)
+  | hlLand a b c d => exact .inl (sound_hlLand ver a b c d ps h hpre)
+  | hlStop gm => exact .inl (sound_hlStop ver gm ps h hpre)
+  | hlGoTo x y z yaw dur rel lin gm => exact .inl (sound_hlGoTo ver x y z yaw dur rel lin gm ps h hpre)
+  | hlSpiral a r0 rf asc dur sw cw gm =>
+    by_cases hv : ver < 8
+    · rw [spiral_legacy_nothing ver hv] at h
+      cases h
+      exact .inr ⟨rfl, hv, _, _, _, _, _, _, _, _, rfl⟩
+    · exact .inl (sound_hlSpiral ver hv a r0 rf asc dur sw cw gm ps h hpre)
+  | hlStartTraj a b c d e => exact .inl (sound_hlStartTraj ver a b c d e ps h hpre)
+  | hlDefineTraj a b c d => exact .inl (sound_hlDefineTraj ver a b c d ps h hpre)
+  | extpos x y z => exact .inl (sound_extpos ver x y z ps h hpre)
+  | extposWrap x y z => exact .inl (sound_extposWrap ver x y z ps h hpre)
+  | extpose x y z a b c d => exact .inl (sound_extpose ver x y z a b c d ps h hpre)
+  | extposeWrap x y z a b c d => exact .inl (sound_extposeWrap ver x y z a b c d ps h hpre)
+  | shortLpp dest data => exact .inl (sound_shortLpp ver dest data ps h hpre)
+  | emergencyStop => exact .inl (sound_emergencyStop ver ps h hpre)
+  | emergencyWatchdog => exact .inl (sound_emergencyWatchdog ver ps h hpre)
+  | lhPersist geo calib => exact .inl (sound_lhPersist ver geo calib ps h hpre)
+  | contWave e => exact .inl (sound_contWave ver e ps h hpre)
+  | arming e => exact .inl (sound_arming ver e ps h hpre)
+  | crashRecovery => exact .inl (sound_crashRecovery ver ps h hpre)
+  | lopoPosition id x y z => exact .inl ((sound_lopoPosition ver id x y z).1 ps h hpre)
+  | lopoReboot id m => exact .inl ((sound_lopoReboot ver id m).1 ps h hpre)
+  | lopoMode id m => exact .inl ((sound_lopoMode ver id m).1 ps h hpre)
 
-theorem setpoint_decodes (ver : Int) (xm : Bool) (roll pitch mr mp yaw thrust : Num) :
-    Sound1 ver (.setpoint xm roll pitch mr mp yaw thrust) :=
-  sound_setpoint ver xm roll pitch mr mp yaw thrust
+/-- **Documented port and channel, struct size.**  Every packet handed to the link carries the documented port and
+channel of its command in the header byte, and its payload has exactly the size of the firmware's struct for that
+command (plus the type byte), which is at most 30. -/
+theorem emit_port_channel_size (ver : Int) (c : Call) (ps : List Packet) (h : emit ver c = .ok ps) :
+    ∀ p ∈ ps, p.header = 16 * (docPortChan c).1 + 12 + (docPortChan c).2 ∧ p.data.length = wireSize ver c ∧ p.data.length ≤ 30 :=
+  wire_all ver c ps h
+
+/-- **LoPoAnchor payloads.**  The three anchor commands are short-LPP packets whose payload the anchor decodes,
+under its own layout, to the caller's arguments. -/
+theorem lopo_payload_decodes (ver : Int) (id x y z m : Num) :
+    SoundLpp ver (.lopoPosition id x y z) ∧ SoundLpp ver (.lopoReboot id m) ∧ SoundLpp ver (.lopoMode id m) :=
+  ⟨(sound_lopoPosition ver id x y z).2, (sound_lopoReboot ver id m).2, (sound_lopoMode ver id m).2⟩
+
+/-- **Thrust outside 0..65535 raises** (ValueError), it is never sent wrapped or clipped; x-mode, version and the other
+arguments are irrelevant. -/
+theorem thrust_out_of_range_raises (ver : Int) (xm : Bool) (roll pitch mr mp yaw : Num) (v : Int) (cv : Conv)
+    (hv : v < 0 ∨ 65535 < v) : emit ver (.setpoint xm roll pitch mr mp yaw (.i v cv)) = .error .valueError := by
+  have : ((Num.i v cv).gtInt (Gen.C08.thrustMax : Nat) || (Num.i v cv).ltInt 0) = true := by
+    have hm : ((Gen.C08.thrustMax : Nat) : Int) = 65535 := rfl
+    simp only [Num.gtInt, Num.ltInt, hm, Bool.or_eq_true, decide_eq_true_eq]
+    omega
+  simp only [emit, this, if_true]
+
+/-- a float thrust (even an integral one such as 1000.0) is never sent: struct.pack('H') rejects it -/
+theorem thrust_float_never_sent (ver : Int) (xm : Bool) (roll pitch mr mp yaw : Num) (d : Nat) (cv : Conv) :
+    ∀ ps, emit ver (.setpoint xm roll pitch mr mp yaw (.f d cv)) ≠ .ok ps := by
+  intro ps h
+  simp only [emit] at h
+  split at h
+  · cases h
+  · obtain ⟨dd, hd, _, _⟩ := build_ok h
+    rw [fmt_setpoint] at hd
+    obtain ⟨_, _, _, ⟨t, cv', ht, _⟩, _⟩ := packNums_allRepr hd
+    cases ht
+
+/-- **int16 overflow raises**: if a full-state packet is sent, every one of the twelve fixed-point components had a
+finite product and its truncation lies within int16 — a component outside it (or NaN / inf) makes the call raise. -/
+theorem int16_overflow_raises (ver : Int) (pos vel acc : Vec3) (quat : QuatN) (rates : Vec3) (ps : List Packet)
+    (h : emit ver (.fullState pos vel acc quat rates) = .ok ps) :
+    ∀ s ∈ [pos.a, pos.b, pos.c, vel.a, vel.b, vel.c, acc.a, acc.b, acc.c, rates.a, rates.b, rates.c],
+      ∃ v : Int, s.mm = .ok v ∧ -32768 ≤ v ∧ v ≤ 32767 :=
+  fullState_components_in_range ver pos vel acc quat rates ps h
+
+/-- **Fixed-point resolution.**  `int(x*1000)` on the binary64 product is truncation toward zero: for the finite double
+`(-1)^s * mant * 2^(ex-1075)` the result has the sign `s` and magnitude `floor(mant * 2^(ex-1075))`;
+NaN and infinities raise. -/
+theorem f64ToInt_trunc (d : Nat) (n : Int) (h : f64ToInt d = .ok n) :
+    f64Exp d ≠ 2047 ∧
+    (n = if f64Sign d = 1 then -(n.natAbs : Int) else (n.natAbs : Int)) ∧
+    (if 1075 ≤ f64Ex d then n.natAbs = f64Mant d * 2 ^ (f64Ex d - 1075)
+     else n.natAbs * 2 ^ (1075 - f64Ex d) ≤ f64Mant d ∧ f64Mant d < (n.natAbs + 1) * 2 ^ (1075 - f64Ex d)) :=
+  f64ToInt_trunc_aux h
+
+theorem f64ToInt_nan_inf_raise (d : Nat) (h : f64Exp d = 2047) :
+    f64ToInt d = .error (if f64Frac d = 0 then .overflow else .valueError) := by
+  unfold f64ToInt; rw [if_pos h]; split <;> rfl
+
+/-- **Quaternion layout.**  When `compress_quaternion` returns `n` (for 9-bit magnitudes): `n` fits 32 bits, and the
+firmware's `quatdecompress` bit extraction yields exactly: dropped index = the component of largest magnitude,
+and for each other component its 9-bit magnitude and its sign relative to the dropped component. -/
+theorem compress_quaternion_layout (qn : QuatN) (n : Nat) (h : compressQuat qn = .ok (n : Int))
+    (hpre : ∀ i, i < 4 → i ≠ iLargest qn → ∀ m : Nat, f64ToInt (qn.get i).t = .ok (m : Int) → m < 512) :
+    quat? qn = some (Fw.quatDecode n) ∧ n < 2 ^ 32 :=
+  compressQuat_layout h hpre
+
+/-- the dropped component is one of largest magnitude: no component is strictly larger (NaN-free input) -/
+theorem iLargest_is_max (qn : QuatN) (i : Nat) (hi : i < 4)
+    (hnan : ∀ j, j < 4 → f64IsNaN (qn.get j).q = false) : f64AbsGt (qn.get i).q (qn.get (iLargest qn)).q = false :=
+  iLargest_max qn i hi hnan
+
+/-- **Lighthouse persist bit fields.**  Bit `b` of the transmitted mask is set iff `b` is in the caller's list. -/
+theorem bsMask_testBit (l : List Int) (m : Nat) (h : bsMask? l = some m) (b : Nat) :
+    m.testBit b = l.contains (b : Int) :=
+  bsMask_testBit_aux h b
+
+/-- ids outside 0..15 raise (never sent masked or wrapped) -/
+theorem lh_persist_invalid_raises (ver : Int) (geo calib : List Int) (b : Int)
+    (hb : (b ∈ geo ∨ b ∈ calib) ∧ (b < 0 ∨ 15 < b)) : emit ver (.lhPersist geo calib) = .error .other :=
+  lhPersist_invalid ver geo calib b hb
+
+/-- D17 (fixed by fixes/D17-c08.patch): the unrepaired `mask += 1 << bs` turns the list [1, 1] into the mask of {2} -/
+theorem lh_persist_live_counterexample :
+    maskSumLive [1, 1] = 4 ∧ (maskSumLive [1, 1]).testBit 1 = false ∧ (maskSumLive [1, 1]).testBit 2 = true ∧
+    maskOr [1, 1] = 2 := by decide
+
+/-- the side condition on negated arguments: for the Python int 0, `-x` is again the int 0, so the wire carries
++0.0 where the float 0.0 would give -0.0 (and the firmware's own sign flip of the legacy types then yields -0.0
+for the caller's 0): the same number, a different bit pattern -/
+theorem neg_int_zero (cv : Conv) : (Num.i 0 cv).neg = Num.i 0 cv ∧ Fw.fneg 0 = 0x80000000 := by
+  constructor
+  · simp [Num.neg]
+  · rfl
+
+/-! ## Non-vacuity: concrete calls that are sent, with their bytes, and concrete calls that raise -/
+
+-- send_hover_setpoint(0.5, -0.0, 1.0, 0.4), protocol version 10 / 8
+example : emit 10 (.hover (.f 0 (.bits 0x3F000000)) (.f 0 (.bits 0x80000000)) (.f 0 (.bits 0x3F800000)) (.f 0 (.bits 0x3ECCCCCD))) =
+    .ok [⟨0x7C, [10, 0, 0, 0, 0x3F, 0, 0, 0, 0x80, 0, 0, 0x80, 0x3F, 0xCD, 0xCC, 0xCC, 0x3E]⟩] := by decide
+example : emit 8 (.hover (.f 0 (.bits 0x3F000000)) (.f 0 (.bits 0x80000000)) (.f 0 (.bits 0x3F800000)) (.f 0 (.bits 0x3ECCCCCD))) =
+    .ok [⟨0x7C, [5, 0, 0, 0, 0x3F, 0, 0, 0, 0x80, 0, 0, 0x80, 0xBF, 0xCD, 0xCC, 0xCC, 0x3E]⟩] := by decide
+example : (Call.hover (.f 0 (.bits 0x3F000000)) (.f 0 (.bits 0x80000000)) (.f 0 (.bits 0x3F800000)) (.f 0 (.bits 0x3ECCCCCD))).Pre 8 := by
+  intro _; rfl
+example : expected? 8 (.hover (.f 0 (.bits 0x3F000000)) (.f 0 (.bits 0x80000000)) (.f 0 (.bits 0x3F800000)) (.f 0 (.bits 0x3ECCCCCD))) =
+    some (.hover 0x3F000000 0x80000000 0x3F800000 0x3ECCCCCD) := by decide
+-- send_setpoint(roll=1.0, pitch=2.0, yawrate=0.0, thrust=40000): pitch is sent negated
+example : emit 10 (.setpoint false (.f 0 (.bits 0x3F800000)) (.f 0 (.bits 0x40000000)) (.f 0 (.bits 0)) (.f 0 (.bits 0)) (.f 0 (.bits 0)) (.i 40000 (.err .other))) =
+    .ok [⟨0x3C, [0, 0, 0x80, 0x3F, 0, 0, 0, 0xC0, 0, 0, 0, 0, 0x40, 0x9C]⟩] := by decide
+-- thrust 65536 / a float that overflows binary32 / an id beyond a byte: raised, nothing sent
+example : emit 10 (.setpoint false (.f 0 (.bits 0)) (.f 0 (.bits 0)) (.f 0 (.bits 0)) (.f 0 (.bits 0)) (.f 0 (.bits 0)) (.i 65536 (.err .other))) =
+    .error .valueError := by decide
+example : emit 10 (.hover (.f 0 (.err .overflow)) (.f 0 (.bits 0)) (.f 0 (.bits 0)) (.f 0 (.bits 0))) = .error .overflow := by decide
+example : emit 10 (.hlStop (.i 256 (.err .other))) = .error .structError := by decide
+-- go_to on both sides of the version switch
+example : (emit 7 (.hlGoTo (.f 0 (.bits 1)) (.f 0 (.bits 2)) (.f 0 (.bits 3)) (.f 0 (.bits 4)) (.f 0 (.bits 5)) (.i 1 (.err .other)) (.i 1 (.err .other)) (.i 0 (.err .other)))).map
+      (·.map (·.data.take 4)) = .ok [[4, 0, 1, 1]] ∧
+    (emit 8 (.hlGoTo (.f 0 (.bits 1)) (.f 0 (.bits 2)) (.f 0 (.bits 3)) (.f 0 (.bits 4)) (.f 0 (.bits 5)) (.i 1 (.err .other)) (.i 1 (.err .other)) (.i 0 (.err .other)))).map
+      (·.map (·.data.take 4)) = .ok [[12, 0, 1, 1]] := by decide
+-- lighthouse persist: the repo's own test vector (even ids / odd ids)
+example : emit 10 (.lhPersist [0, 2, 4, 6, 8, 10, 12, 14] [1, 3, 5, 7, 9, 11, 13, 15]) = .ok [⟨0x6D, [11, 0x55, 0x55, 0xAA, 0xAA]⟩] := by decide
+example : bsMask? [0, 2, 4, 6, 8, 10, 12, 14] = some 0x5555 := by decide
+-- full state: 1.5 m -> 1500 mm (binary64 1500.0 = 0x4097700000000000), identity quaternion (w largest: index 3, magnitudes 0)
+example : f64ToInt 0x4097700000000000 = .ok 1500 ∧ f64ToInt 0xC0DFFFC000000000 = .ok (-32767) ∧
+    f64ToInt 0x7FF8000000000000 = .error .valueError ∧ f64ToInt 0x7FF0000000000000 = .error .overflow := by decide
+example : compressQuat ⟨⟨0, 0x3FE0000000000000⟩, ⟨0, 0x3FE0000000000000⟩, ⟨0, 0x3FE0000000000000⟩, ⟨0x3FF0000000000000, 0x4080280000000000⟩⟩ =
+    .ok 0xC0000000 := by decide
+example : Fw.quatDecode 0xC0000000 = ⟨3, [(2, 0, 0), (1, 0, 0), (0, 0, 0)]⟩ := by decide
 
 end CfVerif.C08
